@@ -66,7 +66,7 @@ OkCode(v) == CASE v = "DATA" -> 354 [] v = "QUIT" -> 221 [] v \in {"GREET", "STA
 OkChoice == [c |-> "ok", sh |-> "none"]
 EnvChoices == {OkChoice} \cup
               (IF env.budget > 0
-               THEN {[c |-> c, sh |-> IF c \in {"t4", "p5"} THEN s ELSE "none"] : c \in CLASSES \ {"mal", "refuse", "cstall", "cwfail"}, s \in SHAPES}
+               THEN {[c |-> c, sh |-> IF c \in {"t4", "p5"} THEN s ELSE "none"] : c \in CLASSES \ {"mal", "refuse", "cstall", "cwfail", "xclose"}, s \in SHAPES}
                ELSE {})
 (* OP = "RawAuth": the smtp package used directly - NewClient, Auth (with its lazy EHLO), Quit *)
 DialFaults  == OP \notin {"Send", "Reset"}     \* in Send / Reset mode the dial is the clean prefix
@@ -76,8 +76,11 @@ DialChoices == IF DialFaults THEN EnvChoices ELSE {OkChoice}
 (* (not for XOAUTH2: that client answers it with QUIT, which the server reads as a response) *)
 AuthChoices == DialChoices \cup (IF DialFaults /\ env.budget > 0 /\ "mal" \in CLASSES /\ cl.mech # "XOAUTH2"
                                  THEN {[c |-> "mal", sh |-> "none"]} ELSE {})
+                           \* "xclose": another goroutine calls smtp.Client.Close while Auth is between two commands
+                           \cup (IF OP = "RawAuth" /\ env.budget > 0 /\ "xclose" \in CLASSES
+                                 THEN {[c |-> "xclose", sh |-> "none"]} ELSE {})
 
-Lost(c) == c \in {"drop", "stall", "wfail"}   \* the connection is unusable afterwards (a garbage line is just a bad reply)
+Lost(c) == c \in {"drop", "stall", "wfail", "xclose"}   \* the connection is unusable afterwards (a garbage line is just a bad reply)
 
 (* what the client stores for a failed step *)
 ErrOf(reason, ch, k, rc) ==
@@ -133,11 +136,15 @@ XO(o0, v, mm, rr, params, cred, mech, ch, caps, okcode) ==
       key == ProjOf(o1, ce)
       \* "wfail": the transport fails while the client writes this command - it is logged (before
       \* the write) but never reaches the server
+      \* "xclose": the client is closed by another goroutine before the command: the command is still
+      \* logged (cmd() logs before it writes), the write fails
       evs == IF ch.c = "wfail" THEN LogEvs(cred, 0) \o << [ev |-> "wfail"] >>
+             ELSE IF ch.c = "xclose"
+             THEN << [ev |-> "xclose"] >> \o (IF o1.conn = "open" THEN << [ev |-> "cclose"] >> ELSE <<>>) \o LogEvs(cred, 0)
              ELSE LogEvs(cred, 0) \o <<ce, ReplyEv(v, ch, env.nfault + 1, caps, okcode)>> \o LogReply(code, ch)
   IN [obs |-> ObsAll(o1, evs),
       env |-> [env EXCEPT
-                 !.pred = IF ch.c = "wfail" THEN @ ELSE Append(@, key),
+                 !.pred = IF ch.c \in {"wfail", "xclose"} THEN @ ELSE Append(@, key),
                  !.budget = IF ch.c = "ok" THEN @ ELSE @ - 1,
                  !.nfault = IF ch.c = "ok" THEN @ ELSE @ + 1,
                  !.hist = IF ch.c = "ok" THEN @
